@@ -157,6 +157,36 @@ def run(ctx):
                 if got != want and not (name == "octave_eject(canonical,json)" and "\n§" in c["text"]):
                     ctx.property_failure({"text": c["text"], "pipeline": name, "expected_zones": want, "observed": got, "corpus": cf.name},
                                          f"{name}: literal zones differ from the input's (corpus {cf.name})")
+        # ---- offset-shift stream: text BEFORE a zone whose length changes under NFC (k decomposed sequences), or that any
+        #      other pre-pass might count differently (astral characters, CR-less long lines), and a zone whose LAST lines
+        #      carry every rewritable construct (NAME{q}, aliases, triple quotes); a pre-pass that computes protected
+        #      ranges on one text and applies them to another exposes exactly the tail of the zone ----
+        tails = ["REPLY_TO::SUPPORT{queue}", "A->B | C{d}", 'T::"""x"""', "K :: v  ", "plain"]
+        for k in (0, 1, 3, 8, 20, 45):
+            for pre_kind in ("comment", "value", "key-block"):
+                for tail in tails:
+                    for depth in (0, 2):
+                        ind = "  " * depth
+                        nfd = "e\u0301" * k
+                        if pre_kind == "comment":
+                            pre = f"// {nfd} note\n"
+                        elif pre_kind == "value":
+                            pre = f'NOTE::"{nfd} x"\n'
+                        else:
+                            pre = f'PRE:\n  A::"{nfd}"\n  B::"\U0001F600{nfd}"\n'
+                        body = f"first line\nmiddle {{brace}} A{{b}}\n{tail}"
+                        blocks = "".join("  " * i + f"L{i}:\n" for i in range(depth))
+                        t = (f"===D===\n{pre}{blocks}{ind}CODE::\n{ind}```text\n" + "\n".join(ind + l for l in body.split("\n"))
+                             + f"\n{ind}```\nAFTER::x\n===END===\n")
+                        want = [("\n".join(ind + l for l in body.split("\n")), "text", "```")]      # zone lines are raw, indentation included
+                        res = pipelines(loop, t, tmp, 999000 + k)
+                        ctx.nontrivial(t)
+                        for name, got in res.items():
+                            ctx.count()
+                            if got != want:
+                                ctx.property_failure({"text": t, "pipeline": name, "expected_zones": want, "observed": got,
+                                                      "stream": "offset-shift", "nfd_sequences_before_zone": k},
+                                                     f"{name}: literal zones differ from the input's (text before the zone changes length under NFC)")
         n = ctx.scale(450, 9000)
         oks = doccases.ok_string_set(ctx)
         for i in range(n):
